@@ -19,7 +19,18 @@ Driver glue for C18. Strings travel as lowercase hex of their UTF-8 bytes and ar
   parses it back with `FromStr` and compares field by field. The clause judged is "rendering an inventory to TOML and parsing it back
   gives equal artifacts": observation `rt=1`, anything else (`rt=0:<field>:<index>`, `rt=parse-error`, `PANIC`) is a failure. The typed
   values are not modelled (the record-level theorem `inventory_roundtrip_partial` is generic in the codecs); the model observation is `rt=1`.
-* `K  -  -  <d2|s32|any>  <string hex>` (the two `-` keep the list positions 1, 2 that `./check` shrinks empty) — observation `ok:<name hex>:<value hex>:<rendered hex>` or `err:<kind>`.
+* `K  -  -  <d2|s32|s64|any>  <string hex>` (the two `-` keep the list positions 1, 2 that `./check` shrinks empty) — observation `ok:<name hex>:<value hex>:<rendered hex>` or `err:<kind>`.
+* `KP  -  -  <d2|s32|s64|any>  <string hex>  <- | l | ml | l+ml>` — the same candidate through every entry path a string has into
+  `Checksum<D>`; observation `fs=<as K>;ds=<r>;dj=<r>;dt=<r>;dv=<r>;ib=<r>;imb=<r>;ij=<r>;at=<r>[;il=<r>][;iml=<r>]`, `r` = `ok:<name hex>:<value hex>`
+  or `err`. `fs` = `str::parse`, `ds` / `dj` / `dt` / `dv` = `Deserialize` on its own (serde's `&str` deserializer, a JSON string, a one-field
+  TOML record, a `toml::Value`), `ib` / `imb` / `il` / `iml` = `Inventory::from_str` of a one-artifact document with the checksum written as
+  basic / multi-line basic / literal / multi-line literal string (the last field says which of the two literal notations the text allows;
+  the harness checks with the `toml` crate that each document's decoded string is the candidate), `ij` = the inventory from JSON, `at` =
+  one `Artifact` from TOML. The spec oracle (`accepts`, the digest value) is applied to every path's outcome separately; the verdict
+  names the first path that deviates. The model's answer for the record paths is `decodeInventory` of the one-artifact record.
+* `N  -  -  <os|arch>  <string hex>  <- | l | ml | l+ml>` — an OS / architecture name through the same paths (`fs` = `FromStr`, which also
+  knows the aliases `osx`, `x86_64`, `aarch64`); observation `<path>=ok:<Display rendering hex>` or `<path>=err`. Judged directly: a
+  rendered name (`linux`, `darwin` / `amd64`, `arm64`) must be read back as itself on every path, and all paths must give the same answer.
 -/
 namespace CnbVerif.DriverC18
 open CnbVerif CnbVerif.Inventory CnbVerif.Spec.Inventory
@@ -190,6 +201,79 @@ def validArtifactR (s : String) : Bool :=
   | [v, os, arch, m] => (hexDecode v).isSome && (parseOs os).isSome && (parseArch arch).isSome && (hexDecode m).isSome
   | _ => false
 
+/-- the model's answer for a checksum string: `Checksum::from_str`; `full` adds the `Serialize` rendering (as family K shows it),
+the short form shows the error only as `err` (a serde path reports a message, not the error value) -/
+def modelChecksum (d : Digest) (s : List Char) (full : Bool) : String :=
+  match parseChecksum d s with
+  | .ok c => "ok:" ++ hexOf c.name ++ ":" ++ hexEncode c.value ++ (if full then ":" ++ hexOf (renderChecksum c) else "")
+  | .error e => if full then "err:" ++ errName e else "err"
+
+/-- the spec oracle on one outcome for the candidate `s`; `want` = `accepts d s` (the grammar). `full`: the outcome of `str::parse`
+(`ok:<name>:<value>:<rendered>` / `err:<kind>`), otherwise of a deserialisation path (`ok:<name>:<value>` / `err`). -/
+def judgeChecksum (d : Digest) (want : Bool) (s : List Char) (full : Bool) (obs : String) : String :=
+  let name := s.takeWhile (· ≠ ':')
+  let hex := (s.dropWhile (· ≠ ':')).drop 1
+  -- accepted: the name is the part before the colon, the value the bytes the digits denote
+  let accepted (n v : String) (k : Unit → String) : String :=
+    if !want then "fail:accepted although the string is not <algorithm>:<hex> of the expected digest"
+    else if n ≠ hexOf name then "fail:algorithm name " ++ n ++ " expected " ++ hexOf name
+    else if v ≠ hexEncode (hexValue hex) then "fail:digest value " ++ v ++ " expected " ++ hexEncode (hexValue hex)
+    else k ()
+  if (if full then obs.startsWith "err:" else obs == "err") then
+    (if want then "fail:rejected (" ++ obs ++ ") although the string is <algorithm>:<hex> of the expected digest" else "ok")
+  else match obs.splitOn ":", full with
+    | ["ok", n, v, rendered], true =>
+      accepted n v (fun _ =>
+        -- … and it renders back
+        match hexDecode rendered with
+        | some rb => if accepts d (chars rb) && hexValue ((chars rb).dropWhile (· ≠ ':') |>.drop 1) == hexValue hex
+                       && (chars rb).takeWhile (· ≠ ':') == name then "ok"
+                     else "fail:the rendered checksum " ++ rendered ++ " does not parse back to the same checksum"
+        | none => "fail:unparsable-observation")
+    | ["ok", n, v], false => accepted n v (fun _ => "ok")
+    | _, _ => "fail:unparsable-observation"
+
+/-- the entry paths every `KP` / `N` case reports, in the order of the observation -/
+def requiredPaths : List String := ["fs", "ds", "dj", "dt", "dv", "ib", "imb", "ij", "at"]
+/-- the paths that carry the string inside an artifact record -/
+def recordPaths : List String := ["ib", "imb", "ij", "at", "il", "iml"]
+def optionalPaths : String → Option (List String)
+  | "-" => some [] | "l" => some ["il"] | "ml" => some ["iml"] | "l+ml" => some ["il", "iml"] | _ => none
+
+def pathName : String → String
+  | "fs" => "str::parse (FromStr)"
+  | "ds" => "Deserialize from serde's own str deserializer"
+  | "dj" => "serde_json::from_str of the JSON string"
+  | "dt" => "toml::from_str of a one-field record"
+  | "dv" => "Deserialize from a toml::Value"
+  | "ib" => "Inventory::from_str, value written as a TOML basic string"
+  | "imb" => "Inventory::from_str, value written as a TOML multi-line basic string"
+  | "il" => "Inventory::from_str, value written as a TOML literal string"
+  | "iml" => "Inventory::from_str, value written as a TOML multi-line literal string"
+  | "ij" => "Inventory deserialised from a JSON value"
+  | "at" => "toml::from_str of one Artifact"
+  | p => p
+
+/-- `p1=o1;p2=o2;…` for exactly the expected paths, in order -/
+def outcomes (paths : List String) (obs : String) : Option (List (String × String)) :=
+  let toks := obs.splitOn ";"
+  if toks.length ≠ paths.length then none
+  else allSome ((paths.zip toks).map (fun (p, t) => (kvs p t).map (fun o => (p, o))))
+
+/-- `impl FromStr for Os` / `for Arch` (artifact.rs), shown by the `Display` rendering: the lowercase names and the aliases -/
+def osFromStr (s : List Char) : Option (List Char) :=
+  if s = "linux".toList then some Os.linux.render
+  else if s = "darwin".toList ∨ s = "osx".toList then some Os.darwin.render else none
+def archFromStr (s : List Char) : Option (List Char) :=
+  if s = "amd64".toList ∨ s = "x86_64".toList then some Arch.amd64.render
+  else if s = "arm64".toList ∨ s = "aarch64".toList then some Arch.arm64.render else none
+
+/-- (rendered names, FromStr, Deserialize) of the field `os` / `arch` -/
+def nameField : String → Option (List (List Char) × (List Char → Option (List Char)) × (List Char → Option (List Char)))
+  | "os" => some ([Os.linux.render, Os.darwin.render], osFromStr, fun s => (Os.parse s).map Os.render)
+  | "arch" => some ([Arch.amd64.render, Arch.arm64.render], archFromStr, fun s => (Arch.parse s).map Arch.render)
+  | _ => none
+
 def handle (fields : List String) (obs : String) : String × String :=
   match fields with
   | ["R", arts, shape] =>
@@ -221,31 +305,54 @@ def handle (fields : List String) (obs : String) : String × String :=
     match digestOf dg, hexDecode str with
     | some d, some bytes =>
       let s := chars bytes
-      let model :=
-        match parseChecksum d s with
-        | .ok c => "ok:" ++ hexOf c.name ++ ":" ++ hexEncode c.value ++ ":" ++ hexOf (renderChecksum c)
-        | .error e => "err:" ++ errName e
+      (modelChecksum d s true, judgeChecksum d (accepts d s) s true obs)
+    | _, _ => ("bad-op", "bad-op")
+  | ["KP", "-", "-", dg, str, forms] =>
+    match digestOf dg, hexDecode str, optionalPaths forms with
+    | some d, some bytes, some opt =>
+      let s := chars bytes
+      let paths := requiredPaths ++ opt
+      let viaRecord : String :=
+        match decodeInventory natCodec metaCodec d [⟨1, Os.linux.render, Arch.amd64.render, ['u'], s, none⟩] with
+        | some [a] => "ok:" ++ hexOf a.checksum.name ++ ":" ++ hexEncode a.checksum.value
+        | _ => "err"
+      let model := joinWith ";" (paths.map (fun p =>
+        p ++ "=" ++ (if p = "fs" then modelChecksum d s true else if recordPaths.contains p then viaRecord else modelChecksum d s false)))
       let want := accepts d s
       let verdict :=
-        if obs.startsWith "err:" then
-          (if want then "fail:rejected (" ++ obs ++ ") although the string is <algorithm>:<hex> of the expected digest" else "ok")
-        else match obs.splitOn ":" with
-          | ["ok", n, v, rendered] =>
-            if !want then "fail:accepted although the string is not <algorithm>:<hex> of the expected digest"
-            else
-              -- accepted: the name is the part before the colon, the value the bytes the digits denote, and it renders back
-              let name := s.takeWhile (· ≠ ':')
-              let hex := (s.dropWhile (· ≠ ':')).drop 1
-              if n ≠ hexOf name then "fail:algorithm name " ++ n ++ " expected " ++ hexOf name
-              else if v ≠ hexEncode (hexValue hex) then "fail:digest value " ++ v ++ " expected " ++ hexEncode (hexValue hex)
-              else match hexDecode rendered with
-                | some rb => if accepts d (chars rb) && hexValue ((chars rb).dropWhile (· ≠ ':') |>.drop 1) == hexValue hex
-                             && (chars rb).takeWhile (· ≠ ':') == name then "ok"
-                             else "fail:the rendered checksum " ++ rendered ++ " does not parse back to the same checksum"
-                | none => "fail:unparsable-observation"
-          | _ => "fail:unparsable-observation"
+        match outcomes paths obs with
+        | none => "fail:unparsable-observation"
+        | some outs =>
+          match outs.findSome? (fun (p, o) =>
+              let v := judgeChecksum d want s (p == "fs") o
+              if v = "ok" then none else some ("fail:" ++ pathName p ++ ": " ++ (v.drop 5).toString)) with
+          | some why => why
+          | none => "ok"
       (model, verdict)
-    | _, _ => ("bad-op", "bad-op")
+    | _, _, _ => ("bad-op", "bad-op")
+  | ["N", "-", "-", field, str, forms] =>
+    match nameField field, hexDecode str, optionalPaths forms with
+    | some (names, fromStr, de), some bytes, some opt =>
+      let s := chars bytes
+      let paths := requiredPaths ++ opt
+      let show_ : Option (List Char) → String | some n => "ok:" ++ hexOf n | none => "err"
+      let model := joinWith ";" (paths.map (fun p => p ++ "=" ++ show_ (if p = "fs" then fromStr s else de s)))
+      let verdict :=
+        match outcomes paths obs with
+        | none => "fail:unparsable-observation"
+        | some outs =>
+          if !outs.all (fun (_, o) => o == "err" || names.any (fun n => o == "ok:" ++ hexOf n)) then "fail:unparsable-observation"
+          else match (if names.contains s then outs.find? (fun (_, o) => o != "ok:" ++ hexOf s) else none) with
+            | some (p, o) => "fail:" ++ pathName p ++ ": the rendered " ++ field ++ " name is not read back as itself (" ++ o ++ ")"
+            | none =>
+              match outs with
+              | [] => "fail:unparsable-observation"
+              | (p0, o0) :: rest =>
+                match rest.find? (fun (_, o) => o != o0) with
+                | some (p, o) => "fail:the entry paths disagree on this " ++ field ++ " name: " ++ pathName p0 ++ " gives " ++ o0 ++ ", " ++ pathName p ++ " gives " ++ o
+                | none => "ok"
+      (model, verdict)
+    | _, _, _ => ("bad-op", "bad-op")
   | _ => ("bad-op", "bad-op")
 
 end CnbVerif.DriverC18
